@@ -374,6 +374,13 @@ def r5_wrappers(ck, F, R="C03-R5"):
             ccs = [callee_name(c) for s, c, t in cl[0].calls()]
             got = ccs
             ok = ccs == [blk]
+        elif not cl and len(cs) == 1:
+            # the block-level move handed over as a function item (`BlockCursor::move_on_first`) instead of
+            # a closure that calls it
+            fa = [a_.strip() for a_ in b.arg_exprs(cs[0][0])]
+            fns = [a_.x["path"] for a_ in fa if a_.k == "fn"]
+            got = fns
+            ok = fns == [blk]
         ck.ob(R, f"wrapper-move/{name}", ok, f"IndexBlockCursor::{name} moves each level with {got} (expected [{blk}])", b)
     # the climbing routine re-applies the caller's move to the freshly loaded child
     rec = F.body(A("ibc_recursive"))
